@@ -23,8 +23,10 @@ TRIPLES = [
     (I("http://a/x"), I("http://a/y"), L("x")),
     (I("http://b#x"), I("http://b#y"), I("http://b#x")),
     (I("urn:x"), I("http://a/b#c"), I("http://é/#ü")),
+    # (IRIs that are a whole namespace: their local name is empty)
+    (I("http://a/"), I("http://b#"), L("y")),
 ]
-GNAMES = [DEFAULT, I("http://a/g"), B("b")]
+GNAMES = [DEFAULT, I("http://a/g"), B("b"), I("http://b#")]
 PRESETS = [(8, 0, 0), (8, 1, 0), (8, 3, 0), (8, 4, 0)]
 
 
@@ -239,7 +241,54 @@ def grouped_twice(api, cls, seq, bindings, preset, src_ns, expect_st, as_set) ->
     # ... and when the first container holds bindings but no statement at all
     fails += _grouped(api, cls, [[], list(seq)], bindings, preset, src_ns, expect_st, as_set,
                       "an empty first sink with bindings, then a sink with statements")
+    fails += grouped_distinct(api, cls, seq, preset)
     return fails
+
+
+def grouped_distinct(api, cls, seq, preset) -> list:
+    """Two containers that bind the same labels to different namespaces, through one grouped
+    stream: each container read back by the grouped parser holds its own bindings."""
+    b1 = [("ex", "http://a/"), ("only1", "http://one.example/")]
+    b2 = [("ex", "http://b#"), ("only2", "http://two.example/")]
+    opts = DR.make_options(cls, preset, 250, True, ns=True, generalized=False, rdf_star=False)
+    out = io.BytesIO()
+    try:
+        if api == "generic":
+            from pyjelly.integrations.generic import parse as gp  # noqa: PLC0415
+            from pyjelly.integrations.generic import serialize as gser  # noqa: PLC0415
+
+            gser.grouped_stream_to_file(
+                (DR.g_sink([st], b) for st, b in zip(seq, (b1, b2))), out, options=opts)
+            got = [{p: T.from_generic(i)[1] for p, i in s.namespaces}
+                   for s in gp.parse_jelly_grouped(io.BytesIO(out.getvalue()))]
+        else:
+            import rdflib  # noqa: PLC0415
+            from pyjelly.integrations.rdflib import parse as rp  # noqa: PLC0415
+            from pyjelly.integrations.rdflib import serialize as rser  # noqa: PLC0415
+
+            rser.grouped_stream_to_file(
+                (r_source(cls, [st], b) for st, b in zip(seq, (b1, b2))), out, options=opts)
+            kw = {"graph_factory": lambda: rdflib.Graph(bind_namespaces="none")} \
+                if cls == "triple" else {}
+            got = [{p: str(u) for p, u in g.namespaces()}
+                   for g in rp.parse_jelly_grouped(io.BytesIO(out.getvalue()), **kw)]
+    except Exception as e:  # noqa: BLE001
+        return [("grouped-distinct-raised", f"{type(e).__name__}: {e}")]
+    fails = []
+    for k, want in enumerate((dict(b1), dict(b2))):
+        if k >= len(got):
+            fails.append(("grouped-distinct", f"container {k} was not read back"))
+            continue
+        for p, iri in want.items():
+            if got[k].get(p) != iri:
+                fails.append(("grouped-distinct",
+                              f"container {k} bound {p!r} to {iri!r}; read back through the "
+                              f"grouped parser it has {got[k].get(p)!r} ({api})"))
+        other = ("only2", "only1")[k]
+        if cls == "triple" and other in got[k]:
+            fails.append(("grouped-distinct", f"container {k} read back with the other "
+                                              f"container's binding {other!r} ({api})"))
+    return fails[:2]
 
 
 def _grouped(api, cls, groups, bindings, preset, src_ns, expect_st, as_set, what) -> list:
